@@ -549,5 +549,6 @@ pub fn parts() -> Vec<Box<dyn PartDyn>> {
         shrink_budget: 120,
         confirm_runs: 3,
             fuzz: None,
+            watchdog_s: 60,
     })]
 }
